@@ -473,6 +473,34 @@ func init() {
 		}
 		return ctxCompare(a[0], p1, p2, pv, v, st)
 	}
+	// gmprev: the bot's pattern - one engine, one cancellable context per move.  GetMove(ctx1, p1) returns with ctx1 still
+	// live; ctx1 is released in the middle of GetMove(ctx2, p2).  The second move is the uninterrupted engine's move
+	// for p2 (and so a legal move); the first call's context is no business of the second call.
+	opTable["gmprev"] = func(s *Session, a []string) string {
+		p1, p2 := decPos(a[1]), decPos(a[2])
+		k := atoi(a[3])
+		e := newEngine(p1.Size(), a[0])
+		ctx1, cancel1 := context.WithCancel(context.Background())
+		defer cancel1()
+		e.evals, e.cancelAt = 0, 0
+		e.ai.GetMove(ctx1, p1)
+		ctx2, cancel2 := context.WithCancel(context.Background())
+		defer cancel2()
+		e.evals = 0
+		e.hookAt, e.hook = k, func() { cancel1(); time.Sleep(500 * time.Microsecond) }
+		m := e.ai.GetMove(ctx2, p2)
+		e.hook = nil
+		ref := newEngine(p1.Size(), a[0])
+		ref.ai.GetMove(ctxBackground, p1)
+		want := ref.ai.GetMove(ctxBackground, p2)
+		if _, err := p2.Move(m); err != nil {
+			return "illegal-move-after-earlier-context-ended got=" + encMove(m) + " want=" + encMove(want)
+		}
+		if m != want {
+			return "move-changed-by-earlier-context got=" + encMove(m) + " want=" + encMove(want)
+		}
+		return "ok"
+	}
 	opTable["sval"] = func(s *Session, a []string) string {
 		p := decPos(a[1])
 		e := newEngine(p.Size(), a[0])
